@@ -238,6 +238,16 @@ def _k1_k2(model: Model, rep: Report):
                              detail="wrong-class")
                     continue
                 passed = dict(v[2])
+                # ``result.<property> = x`` through a setter that stores its argument in a field is an assignment of that field
+                for key_ in [k_ for k_ in passed if k_ not in fields]:
+                    for k2_ in [K]:
+                        for sf_ in [x_ for x_ in [K.resolve_setter(key_)] if x_ is not None]:
+                            body_ = [st_ for st_ in sf_.node.body if not (isinstance(st_, ast.Expr) and isinstance(st_.value, ast.Constant))]
+                            ps_ = [a_.arg for a_ in sf_.node.args.args]
+                            if sf_.kind == "setter" and len(body_) == 1 and isinstance(body_[0], ast.Assign) and len(body_[0].targets) == 1 and len(ps_) == 2 \
+                                    and isinstance(body_[0].targets[0], ast.Attribute) and isinstance(body_[0].targets[0].value, ast.Name) and body_[0].targets[0].value.id == ps_[0] \
+                                    and isinstance(body_[0].value, ast.Name) and body_[0].value.id == ps_[1] and body_[0].targets[0].attr in fields and key_ in passed:
+                                passed[body_[0].targets[0].attr] = passed.pop(key_)
                 for fname, fi in fields.items():
                     kind = field_kind(ev, model, fi)
                     is_rel = kind == "link"
